@@ -18,10 +18,10 @@ package verifharness
 //   toggle <denom>                               -> ok | err  (real ToggleRelay)
 //   kill <denom>                                 -> ok | err  (remove the pair's contract account: "self-destructed")
 //   cb <ack|timeout> <pkt> <ack bytes> <inner err 0|1> <k> (<addr> <denom> <delta>)*k  -> err=<0|1>   (packet SENT by this chain)
-//   recv <seq,sp,sc,dp,dc,data> <dec> <amt|none> <rcv|none> <hookdenom> <inner ack> <k> (<addr> <denom> <delta>)*k
+//   recv <seq,sp,sc,dp,dc,data> <dec> <amt|none> <rcv|none> <data.Denom> <n> (<raw trace> <its ibc-go name>)*n <inner ack> <k> (<addr> <denom> <delta>)*k
 //        packet; then what the external decoders say (computed here with the node's own libraries); then what the
 //        wrapped transfer module did on the copy (its acknowledgement and its bank effect)
-//                                                -> ack=<..|nil> com=<..|nil> ev=<S|F|-> rv=<n|-> mv=<n> tok=<n|x|-> mtok=<n|x|-> reg=<0|1> | panic
+//                                                -> ack=<..|nil> com=<..|nil> ev=<S|F|-> rv=<n|-> mv=<n> tok=<n|x|-> mtok=<n|x|-> reg=<0|1> cred=<denom|?|-> | panic
 //        (tok / mtok: token balance of the receiver / of the module account in the pair's contract)
 
 import (
@@ -207,7 +207,7 @@ func newC16World(t *testing.T) *c16World {
 		connectiontypes.ExportedVersionsToProto(connectiontypes.GetCompatibleVersions()), 0)
 	ik.ConnectionKeeper.SetConnection(ctx, "connection-0", conn)
 	for dc, sc := range c16Counterparty {
-		ch := channeltypes.NewChannel(channeltypes.OPEN, channeltypes.UNORDERED, channeltypes.NewCounterparty("transfer", sc), []string{"connection-0"}, "ics20-1")
+		ch := channeltypes.NewChannel(channeltypes.OPEN, channeltypes.UNORDERED, channeltypes.NewCounterparty(c16CounterpartyPort(dc), sc), []string{"connection-0"}, "ics20-1")
 		ik.ChannelKeeper.SetChannel(ctx, "transfer", dc, ch)
 		name := host.ChannelCapabilityPath("transfer", dc)
 		cap, err := a.ScopedIBCKeeper.NewCapability(ctx, name)
@@ -228,7 +228,19 @@ const c16Client = "09-localhost"
 // channel-0 is symmetric; channel-1 and channel-2 are asymmetric and their counterparty's id is the id of ANOTHER local
 // channel (a hook that derived the voucher denomination from the packet's source end would hit the sibling voucher of
 // that other channel); channel-3's counterparty id names no local channel.
-var c16Counterparty = map[string]string{"channel-0": "channel-0", "channel-1": "channel-0", "channel-2": "channel-1", "channel-3": "channel-7"}
+// channel-4's counterparty has the SAME channel id but another PORT id ("xfer"): source prefix != destination prefix there too.
+var c16Counterparty = map[string]string{"channel-0": "channel-0", "channel-1": "channel-0", "channel-2": "channel-1", "channel-3": "channel-7", "channel-4": "channel-4"}
+
+func c16CounterpartyPort(dc string) string {
+	if dc == "channel-4" {
+		return "xfer"
+	}
+	return "transfer"
+}
+
+// c16Voucher names a raw trace the way ibc-go does ("ibc/" + HEX(sha256) when it has a path, else the base denomination)
+// - computed with ibc-go's own DenomTrace, NOT with the aggregate module's helper under test.
+func c16Voucher(raw string) string { return transfertypes.ParseDenomTrace(raw).IBCDenom() }
 
 // deliver runs the real ibc-go core handler for MsgRecvPacket on ctx; returns the acknowledgement hash stored for the
 // packet (nil = none written).
@@ -399,7 +411,20 @@ func (w *c16World) recv(r *Rec, p c16Pkt) (string, string) {
 			rcvS = hx(a)
 		}
 	}
-	hookDenom, _ := aggregatetypes.IBCDenom(pkt.GetDestPort(), pkt.GetDestChannel(), data.Denom)
+	dstPrefix := transfertypes.GetDenomPrefix(pkt.GetDestPort(), pkt.GetDestChannel())
+	srcPrefix := transfertypes.GetDenomPrefix(pkt.GetSourcePort(), pkt.GetSourceChannel())
+	// the voucher of the trace prefixed with the DESTINATION end: what the hook is specified to convert. Used for the
+	// observation only (the oracle works from the denomination the transfer module credited).
+	hookDenom := c16Voucher(dstPrefix + data.Denom)
+	// sha256 naming of the raw traces the model may ask for
+	hashes := []string{hxs(dstPrefix + data.Denom), hxs(hookDenom)}
+	for _, pre := range []string{srcPrefix, dstPrefix} {
+		if strings.HasPrefix(data.Denom, pre) {
+			if u := data.Denom[len(pre):]; strings.Contains(u, "/") {
+				hashes = append(hashes, hxs(u), hxs(c16Voucher(u)))
+			}
+		}
+	}
 	// -- the wrapped module alone, on a copy -------------------------------------------------------
 	b0 := c16Balances(w, w.ctx)
 	ctxI, _ := w.ctx.CacheContext()
@@ -411,8 +436,8 @@ func (w *c16World) recv(r *Rec, p c16Pkt) (string, string) {
 	}
 	bI := c16Balances(w, ctxI)
 	deltas := c16Diff(b0, bI)
-	line := fmt.Sprintf("recv %s %s %s %s %s %s %d", p.String(), map[bool]string{true: "1", false: "0"}[dec], amtS, rcvS, hxs(hookDenom),
-		c16AckStr(innerAck), len(deltas))
+	line := fmt.Sprintf("recv %s %s %s %s %s %d %s %s %d", p.String(), map[bool]string{true: "1", false: "0"}[dec], amtS, rcvS, hxs(data.Denom),
+		len(hashes)/2, strings.Join(hashes, " "), c16AckStr(innerAck), len(deltas))
 	if len(deltas) > 0 {
 		line += " " + strings.Join(deltas, " ")
 	}
@@ -423,10 +448,22 @@ func (w *c16World) recv(r *Rec, p c16Pkt) (string, string) {
 	// distribution only: the voucher the same base denomination has over the LOCAL channel whose id equals the
 	// counterparty's channel id ("sibling"), registered, enabled and held by the receiver in sufficient amount
 	siblingFunded := false
-	if sib, _ := aggregatetypes.IBCDenom(pkt.GetDestPort(), pkt.GetSourceChannel(), data.Denom); dec && sib != hookDenom && rcv != nil && amt != nil && amt.Sign() > 0 {
+	if sib := c16Voucher(transfertypes.GetDenomPrefix(pkt.GetDestPort(), pkt.GetSourceChannel()) + data.Denom); dec && sib != hookDenom && rcv != nil && amt != nil && amt.Sign() > 0 {
 		if sp, ok := w.pairOf(w.ctx, sib); ok && sp.Enabled {
 			if have := b0[hx(rcv)+" "+hxs(sib)]; have != nil && have.Cmp(amt) >= 0 {
 				siblingFunded = true
+			}
+		}
+	}
+	// distribution only: data.Denom merely STARTS with the destination prefix (not a returning coin); "funded": the
+	// denomination obtained by (wrongly) stripping that prefix is a registered enabled pair the receiver holds enough of
+	lookalike, lookalikeFunded := false, false
+	if dec && strings.HasPrefix(data.Denom, dstPrefix) && !strings.HasPrefix(data.Denom, srcPrefix) {
+		lookalike = true
+		look := c16Voucher(data.Denom[len(dstPrefix):])
+		if lp, ok := w.pairOf(w.ctx, look); ok && lp.Enabled && rcv != nil && amt != nil && amt.Sign() > 0 {
+			if have := b0[hx(rcv)+" "+hxs(look)]; have != nil && have.Cmp(amt) >= 0 {
+				lookalikeFunded = true
 			}
 		}
 	}
@@ -613,6 +650,15 @@ func (w *c16World) recv(r *Rec, p c16Pkt) (string, string) {
 	if hadPair {
 		tok = w.tokenBalance(w.ctx, pairBefore.GetERC20Contract(), recvEvm)
 	}
+	// the denomination the transfer module credited, as observed on its run alone (differential: the model transcribes
+	// ibc-go's rule from the packet's source / destination port, channel and data.Denom)
+	credObs := "-"
+	if innerOK {
+		credObs = "?"
+		if nCredited == 1 {
+			credObs = hxs(credited)
+		}
+	}
 	mtok := "-"
 	if hadPair {
 		mtok = w.tokenBalance(w.ctx, pairBefore.GetERC20Contract(), aggregatetypes.ModuleAddress)
@@ -651,6 +697,45 @@ func (w *c16World) recv(r *Rec, p c16Pkt) (string, string) {
 			r.Count("recv.asymmetric-channels.converted")
 		}
 	}
+	if innerOK && p.sp != p.dp {
+		r.Count("recv.port-asymmetric")
+	}
+	if innerOK && lookalike {
+		r.Count("recv.lookalike")
+		if lookalikeFunded {
+			r.Count("recv.lookalike-funded")
+			if converted {
+				r.Count("recv.lookalike-funded.converted")
+			}
+		}
+	}
+	if dec {
+		hops := 0
+		for rest := data.Denom; ; hops++ {
+			f := strings.SplitN(rest, "/", 3)
+			if len(f) < 3 || !strings.HasPrefix(f[1], "channel-") {
+				break
+			}
+			rest = f[2]
+		}
+		if innerOK {
+			r.Count(fmt.Sprintf("recv.hops.%d", hops))
+		}
+		class := "text"
+		if hrp, _, err := bech32.DecodeAndConvert(data.Sender); err == nil {
+			class = "bech32-other"
+			if hrp == sdk.GetConfig().GetBech32AccountAddrPrefix() {
+				class = "bech32-own"
+			}
+		} else if strings.HasPrefix(data.Sender, "0x") {
+			class = "hex"
+		} else if strings.TrimSpace(data.Sender) == "" {
+			class = "blank"
+		}
+		if innerOK || class == "blank" {
+			r.Count("recv.sender." + class)
+		}
+	}
 	if innerOK && siblingFunded {
 		r.Count("recv.sibling-denom-funded")
 		if !hadPair {
@@ -666,7 +751,7 @@ func (w *c16World) recv(r *Rec, p c16Pkt) (string, string) {
 		}
 	}
 	r.Nontrivial(strings.Join(w.hist, ";"))
-	return line, fmt.Sprintf("ack=%s com=%s ev=%s rv=%s mv=%s tok=%s mtok=%s reg=%s", c16AckStr(mwAck), com, ev, rv, mv, tok, mtok, reg)
+	return line, fmt.Sprintf("ack=%s com=%s ev=%s rv=%s mv=%s tok=%s mtok=%s reg=%s cred=%s", c16AckStr(mwAck), com, ev, rv, mv, tok, mtok, reg, credObs)
 }
 
 func c16Metadata(denom string) banktypes.Metadata {
@@ -922,12 +1007,13 @@ func TestC16(t *testing.T) {
 	}
 	rng := r.Rng
 	pick := func(xs []string) string { return xs[rng.Intn(len(xs))] }
-	bases := []string{"uatom", "uosmo", "transfer/channel-7/uusd"}
-	dstChans := []string{"channel-0", "channel-0", "channel-0", "channel-1", "channel-1", "channel-1", "channel-2", "channel-2", "channel-3"}
-	hook := func(dc, base string) string {
-		d, _ := aggregatetypes.IBCDenom("transfer", dc, base)
-		return d
-	}
+	bases := []string{"uatom", "uosmo", "transfer/channel-7/uusd", "uatom", "transfer/channel-8/transfer/channel-9/uxyz"}
+	dstChans := []string{"channel-0", "channel-0", "channel-0", "channel-1", "channel-1", "channel-1", "channel-2", "channel-2", "channel-3", "channel-3", "channel-4"}
+	hook := func(dc, base string) string { return c16Voucher("transfer/" + dc + "/" + base) }
+	senderOther, _ := bech32.ConvertAndEncode("osmo", bytes.Repeat([]byte{0x77}, 20))
+	senderLong, _ := bech32.ConvertAndEncode("juno", bytes.Repeat([]byte{0x78}, 32))
+	senders := []string{"cosmos1sender", sdk.AccAddress(bytes.Repeat([]byte{0x66}, 20)).String(), senderOther, senderLong,
+		"0x6666666666666666666666666666666666666666", "0X66", "alice", "some one @ somewhere", "\u017elu\u0165ou\u010dk\u00fd", strings.Repeat("s", 300)}
 	addr := func(b byte, n int) sdk.AccAddress { return sdk.AccAddress(bytes.Repeat([]byte{b}, n)) }
 	goodRecv := []string{addr(0x11, 20).String(), addr(0x22, 20).String(), addr(0x33, 20).String()}
 	otherHrp, _ := bech32.ConvertAndEncode("other", addr(0x11, 20))
@@ -948,13 +1034,18 @@ func TestC16(t *testing.T) {
 		// registry set-up: most histories register the voucher denominations that will arrive
 		type regd struct{ dc, base, denom string }
 		registered := []regd{}
-		regAs := func(dc, base, kind, owner string) {
-			d := hook(dc, base)
-			for _, g := range registered {
-				if g.denom == d {
-					return
-				}
+		regDenoms := map[string]bool{}
+		var regAs func(dc, base, kind, owner string)
+		regRaw := func(d, kind, owner string) { regAs("", d, kind, owner) } // a denomination no packet of this harness is routed for
+		regAs = func(dc, base, kind, owner string) {
+			d := base
+			if dc != "" {
+				d = hook(dc, base)
 			}
+			if regDenoms[d] {
+				return
+			}
+			regDenoms[d] = true
 			if kind == "" {
 				kind = pick(kinds)
 				if rng.Intn(40) == 0 {
@@ -971,7 +1062,9 @@ func TestC16(t *testing.T) {
 				h = append(h, fmt.Sprintf("fund %s %s 1", hx(w.modAddr), hxs(d)))
 			}
 			h = append(h, fmt.Sprintf("register %s %s %s", hxs(d), kind, owner))
-			registered = append(registered, regd{dc, base, d})
+			if dc != "" {
+				registered = append(registered, regd{dc, base, d})
+			}
 		}
 		reg := func(dc, base string) { regAs(dc, base, "", "m") }
 		// sibling-denomination constellation: an asymmetric channel dc whose counterparty id sc is also the id of a local
@@ -1017,6 +1110,38 @@ func TestC16(t *testing.T) {
 				reg("channel-0", bases[rng.Intn(len(bases))])
 			}
 		}
+		// look-alike constellation: over an asymmetric channel dc a FOREIGN voucher arrives whose trace merely STARTS with our
+		// end's prefix "transfer/<dc>/" (0-, 1- or 2-hop rest): not a returning coin (the source prefix differs in channel or
+		// port id). The denomination one gets by (wrongly) stripping the destination prefix - a native coin or a local
+		// voucher - is a registered converting pair and the receivers hold plenty of it. The pair for the voucher actually
+		// credited is absent / converting.
+		var focusRaw *regd
+		if rng.Intn(3) == 0 {
+			dc := pick([]string{"channel-1", "channel-2", "channel-3", "channel-3", "channel-4"})
+			rest := pick([]string{"acoin", "acoin", "uatom", "transfer/channel-5/uatom", "transfer/channel-0/uosmo", "transfer/channel-5/transfer/channel-6/uusd"})
+			look := c16Voucher(rest)
+			kind, owner := "std", "m"
+			switch rng.Intn(6) {
+			case 0:
+				kind = "tiny1"
+			case 1:
+				kind = "tinyd"
+			case 2:
+				kind, owner = "tinyd", "x"
+			}
+			regRaw(look, kind, owner)
+			full := "transfer/" + dc + "/" + rest
+			if rng.Intn(3) == 0 {
+				regAs(dc, full, pick([]string{"std", "tiny1", "tinyd"}), "m")
+			}
+			for _, a := range goodRecv {
+				if rng.Intn(4) > 0 {
+					ra, _ := sdk.AccAddressFromBech32(a)
+					h = append(h, fmt.Sprintf("fund %s %s 200000000000000000000000000000000", hx(ra), hxs(look)))
+				}
+			}
+			focusRaw = &regd{dc, full, ""}
+		}
 		if rng.Intn(3) == 0 { // a pair for the voucher of ONE asymmetric channel only
 			reg(pick([]string{"channel-1", "channel-1", "channel-2", "channel-3"}), pick(bases))
 		}
@@ -1026,10 +1151,10 @@ func TestC16(t *testing.T) {
 			h = append(h, fmt.Sprintf("fund %s %s %d", hx(transfertypes.GetEscrowAddress("transfer", "channel-0")), hxs("atele"), 1000000+rng.Intn(100)))
 		}
 		if rng.Intn(2) == 0 {
-			h = append(h, fmt.Sprintf("fund %s %s %d", hx(transfertypes.GetEscrowAddress("transfer", pick([]string{"channel-1", "channel-1", "channel-2"}))), hxs("atele"), 1000000+rng.Intn(100)))
+			h = append(h, fmt.Sprintf("fund %s %s %d", hx(transfertypes.GetEscrowAddress("transfer", pick([]string{"channel-1", "channel-1", "channel-2", "channel-3", "channel-4"}))), hxs("atele"), 1000000+rng.Intn(100)))
 		}
 		if rng.Intn(4) == 0 {
-			back, _ := aggregatetypes.IBCDenom("transfer", "channel-9", "ufoo")
+			back := c16Voucher("transfer/channel-9/ufoo")
 			h = append(h, fmt.Sprintf("fund %s %s %d", hx(transfertypes.GetEscrowAddress("transfer", pick([]string{"channel-0", "channel-1"}))), hxs(back), 1000000+rng.Intn(100)))
 		}
 		steps := 4 + rng.Intn(12)
@@ -1051,7 +1176,7 @@ func TestC16(t *testing.T) {
 			case x == 7 || x == 8:
 				// a packet SENT by this chain comes back acknowledged / timed out
 				dc := pick(dstChans)
-				p := c16Pkt{seq: 1000 + seq, sp: "transfer", sc: dc, dp: "transfer", dc: cp(dc)}
+				p := c16Pkt{seq: 1000 + seq, sp: "transfer", sc: dc, dp: c16CounterpartyPort(dc), dc: cp(dc)}
 				seq++
 				denom := pick([]string{"atele", "transfer/" + dc + "/uatom", "transfer/" + dc + "/uosmo", "uatom", ""})
 				sender := pick(goodRecv)
@@ -1081,16 +1206,22 @@ func TestC16(t *testing.T) {
 			default:
 				p := c16Pkt{seq: seq, sp: "transfer", dp: "transfer", dc: pick(dstChans)}
 				denom := pick(bases)
-				if focus != nil && rng.Intn(2) == 0 { // the asymmetric channel of the sibling constellation
+				if focusRaw != nil && rng.Intn(2) == 0 { // the look-alike voucher on its asymmetric channel
+					p.dc, denom = focusRaw.dc, focusRaw.base
+				} else if focus != nil && rng.Intn(2) == 0 { // the asymmetric channel of the sibling constellation
 					p.dc, denom = focus.dc, focus.base
 				} else if len(registered) > 0 && rng.Intn(4) > 0 { // mostly a denomination with a registered pair
 					g := registered[rng.Intn(len(registered))]
 					p.dc, denom = g.dc, g.base
 				}
-				p.sc = cp(p.dc)
+				p.sc, p.sp = cp(p.dc), c16CounterpartyPort(p.dc)
 				seq++
-				switch rng.Intn(12) {
-				case 0:
+				switch rng.Intn(14) {
+				case 2: // a foreign voucher whose trace starts with OUR end's prefix (returning only on the symmetric channel)
+					denom = p.dp + "/" + p.dc + "/" + pick([]string{"acoin", "uatom", "transfer/channel-5/uatom", "transfer/channel-5/transfer/channel-6/uusd"})
+				case 3: // two hops
+					denom = "transfer/channel-8/transfer/channel-9/" + pick([]string{"uxyz", "uatom"})
+				case 0, 4:
 					denom = p.sp + "/" + p.sc + "/atele" // returning native coin
 				case 1:
 					if rng.Intn(3) > 0 {
@@ -1107,9 +1238,9 @@ func TestC16(t *testing.T) {
 				if rng.Intn(8) == 0 {
 					receiver = pick(oddRecv)
 				}
-				sender := "cosmos1sender"
+				sender := pick(senders)
 				if rng.Intn(40) == 0 {
-					sender = ""
+					sender = pick([]string{"", " "})
 				}
 				p.data = c16Data(denom, amount, sender, receiver)
 				if rng.Intn(16) == 0 { // malformed packet data
